@@ -20,10 +20,19 @@ pub mod ext {
     pub struct ExBorrowedFd<'a>(std::os::fd::BorrowedFd<'a>);
     #[verifier::external_type_specification] #[verifier::external_body]
     pub struct ExOwnedFd(std::os::fd::OwnedFd);
+    /// the raw descriptor behind anything that is AsFd (ghost; ASSUMED stable for the lifetime of the value)
+    pub uninterp spec fn fd_raw<F: ?Sized>(f: &F) -> int;
+    /// ASSUMED: a reference to an AsFd object designates the descriptor of the object (std: `impl AsFd for &T`)
+    #[verifier::external_body]
+    pub broadcast proof fn axiom_fd_raw_ref<F>(f: &F)
+        ensures #[trigger] fd_raw::<&F>(&f) == fd_raw::<F>(f),
+    {}
     #[verifier::external_trait_specification]
     pub trait ExAsFd {
         type ExternalTraitSpecificationFor: std::os::fd::AsFd;
-        fn as_fd(&self) -> std::os::fd::BorrowedFd<'_>;
+        /// ASSUMED: borrowing a descriptor designates the same descriptor
+        fn as_fd(&self) -> (r: std::os::fd::BorrowedFd<'_>)
+            ensures fd_raw(&r) == fd_raw(self);
     }
     #[verifier::external_type_specification] #[verifier::external_body]
     #[verifier::accept_recursive_types(T)] #[verifier::reject_recursive_types(A)]
